@@ -44,7 +44,9 @@ BOOLS = ['None', 'True', 'False', '0', '1']
 POSITIONS = ['0', '-1', 'L', '-L - 1', '[0]', '[0, -1]', '[L]', '(x for x in [0])', 'range(L)', 'range(L + 1)', 'range(-1, -L - 1, -1)', 'range(0, L, 2)', '[]', 'None', '(0, L)', '[True]', '[2 ** 64]', 'range(0)']
 STREAMS_IO = ['io.StringIO()']
 FILES = ['io.BytesIO()']
-DTYPES = ["'u8'", "'uint3'", "'float16'", "'hex4'", "'bytes2'", "'ue'", "'pad'", "'nonsense'", "''", "'u0'", "'<H'", "'bool'", "bitstring.Dtype('i4')", "'e2m1mxfp'", "'u-1'", "'bin'", "'u 8'", "'>Z'", "'@'", "'bits3'", "'pad3'"]
+DTYPES = ["'u8'", "'uint3'", "'float16'", "'hex4'", "'bytes2'", "'ue'", "'pad'", "'nonsense'", "''", "'u0'", "'<H'", "'bool'", "bitstring.Dtype('i4')", "'e2m1mxfp'", "'u-1'", "'bin'", "'u 8'", "'>Z'", "'@'", "'bits3'", "'pad3'",
+          "bitstring.Dtype('uint', 0)", "bitstring.Dtype('ue')", "bitstring.Dtype('hex', 0)", "bitstring.Dtype('float16', scale=2 ** 2000)", "bitstring.Dtype('u8', scale=2 ** 2000)",
+          "bitstring.Dtype('float16', scale='auto')", "bitstring.Dtype('e4m3mxfp', scale='auto')", "bitstring.Dtype('float32', scale=1e308)", "bitstring.Dtype('bits')"]
 NUMBERS = ['1', '0', '-1', '255', '256', '2 ** 70', '0.5', "float('nan')", "float('inf')", "float('-inf')", '-0.0', '1e400', '-2 ** 70', 'True']
 ITERABLES = ['[1, 2]', '[]', '[256]', '(1,)', '(x for x in [1])', "'0x1'", "bitstring.Array('u8', [3])", "array.array('B', [1])", "array.array('d', [1.0])", "b'ab'", "a", "[float('inf')]", "[2 ** 70]", "range(3)"]
 SEPS = ["' '", "''", "'|'", "'\\n'", "'abc'"]
@@ -56,7 +58,7 @@ BYNAME = {
     'i': SMALL_INTS + ['-9', '100'], 'length': ['None'] + INTS[:-1], 'offset': ['None'] + INTS[:-1], 'key': INTS + ['slice(None)', 'slice(1, 3)', 'slice(None, None, -1)', 'slice(None, None, 0)', 'slice(5, 2)', 'slice(-100, 100, 3)'],
     'bytealigned': BOOLS, 'repeat': BOOLS[1:], 'show_offset': BOOLS[1:], 'fmt': FORMATS, 'width': ['120', '0', '-1', '1', '10 ** 6'], 'sep': SEPS, 'stream': STREAMS_IO, 'f': FILES,
     'sequence': SEQS, 'iterable': ITERABLES, 'dtype': DTYPES, 'x': NUMBERS, 'other': NUMBERS + ITERABLES[:3] + ["bitstring.Array('u8', [1, 2])", 'a'], 'value': NUMBERS, 'token': DTYPES,
-    'scale': ['None', '2', '0', '0.5', "'auto'", '-1', "float('nan')", "float('inf')"], 'b': BITLIKE, 'bytepos': SMALL_INTS + ['-1'], 's': ["'0b1'", "''", "'0b2'", "'u8=300'", "'2*('", "'hex:3=a'"],
+    'scale': ['None', '2', '0', '0.5', "'auto'", '-1', "float('nan')", "float('inf')", '2 ** 2000', '1e308'], 'b': BITLIKE, 'bytepos': SMALL_INTS + ['-1'], 's': ["'0b1'", "''", "'0b2'", "'u8=300'", "'2*('", "'hex:3=a'"],
     'initializer': ['[1, 2]', 'None', '3', '-1', "b'ab'", "bitstring.Bits('0x01')", '[300]', "array.array('B', [1])", '2 ** 11', "[float('inf')]", "bytearray(b'a')"], 'trailing_bits': ['None', "'0b1'", "'0b2'", "'0x' + 'f' * 10", "b'a'"],
 }
 # per-method overrides where a parameter name means something else
@@ -539,7 +541,11 @@ def arrays(bs, acc, shard):
 def arr_inv(bs, a):
     try:
         n = len(a)
-        if len(a.tolist()) != n:
+        try:
+            items = a.tolist()
+        except ValueError:
+            items = None      # interpreting an item may legitimately fail (e.g. a scale factor beyond the float range): a documented exception, not corruption
+        if items is not None and len(items) != n:
             return "len(tolist()) != len(a)"
         w = a.dtype.bitlength
         if len(a.data) != n * w + len(a.trailing_bits):
@@ -561,7 +567,7 @@ def dtype_pack(bs, acc, shard):
     part = shard['part']
     for tok in (toks[part::3] if part < 3 else []):
         for ln in ['', ', 8', ', 0', ', -1', ', None', ', 2 ** 20', ', 3', ', True']:
-            for sc in ['', ', scale=2', ', scale=0', ", scale='auto'", ", scale=float('nan')", ', scale=None']:
+            for sc in ['', ', scale=2', ', scale=0', ", scale='auto'", ", scale=float('nan')", ', scale=None', ', scale=2 ** 2000', ', scale=1e308', ', scale=-2 ** 2000', ", scale=float('inf')"]:
                 if sc not in ('', ', scale=None') and any(k in tok for k in ('bits', 'bin', 'hex', 'bytes', 'pad', 'bool', 'oct')):
                     continue      # a scale on a non-numeric dtype is not a documented use
                 if ln == '' and sc == '' or True:
